@@ -570,6 +570,9 @@ class XmlDuration(UserString):
 
     def __init__(self, value: str) -> None:
         """Initialize with the given string."""
+        if isinstance(value, str):
+            value = value.strip()
+
         super().__init__(value)
         self._interval = self._parse_interval(value)
 
